@@ -32,8 +32,12 @@ Definition bind {A B} (r : result A) (f : A -> result B) : result B :=
 Notation "'do' x <- r ; k" := (bind r (fun x => k))
   (at level 200, x pattern, r at level 100, k at level 200, right associativity).
 
+(* Equality of what a caller can OBSERVE: the exception class.  ETooLong and EValue are both Python's ValueError
+   (they differ in the message text only, which is not part of any property and which a harmless rewrite may change),
+   so the correspondence identifies them; EEof (EOFError) stays apart from both. *)
 Definition errkind_eqb (a b : errkind) : bool :=
   match a, b with
+  | ETooLong, EValue | EValue, ETooLong => true
   | EEof, EEof | ETooLong, ETooLong | EValue, EValue | EUnicode, EUnicode
   | EStruct, EStruct | EAttribute, EAttribute | EType, EType | EKey, EKey
   | EOverflow, EOverflow | EFuel, EFuel | EOther, EOther => true
